@@ -180,6 +180,39 @@ def run(chk):
                         if not ok:
                             oracle_bad.append(dict(infol, op=f"solver agreement {b_} vs {a_}: {key_}", expected=np.atleast_1d(vals[a_][key_]).tolist(),
                                                    observed=np.atleast_1d(vals[b_][key_]).tolist()))
+    # single precision (64-bit types switched off): the three solvers agree on log probability and normalisation, the dense and the
+    # quasiseparable one on the conditional process, to single-precision accuracy
+    for kname_, mk_, _kfun, x32, dg32, mu32, y32, xt32, fam32 in gpcases.float32_models(np.random.default_rng(chk.seed + 32)):
+        if fam32 != "quasisep":
+            continue
+        res32 = {}
+        for sname_, scls_ in (("direct", DirectSolver), ("quasisep", QuasisepSolver), ("kalman", KalmanSolver)):
+            hist["float32/" + sname_] = hist.get("float32/" + sname_, 0) + 1
+            try:
+                with jax.enable_x64(False):
+                    f32 = jnp.float32
+                    g32 = GaussianProcess(mk_(f32), jnp.asarray(x32, f32), diag=jnp.asarray(dg32, f32), mean=jnp.asarray(mu32, f32), solver=scls_)
+                    r_ = dict(lp=np.atleast_1d(np.asarray(g32.log_probability(jnp.asarray(y32, f32)), float)),
+                              norm=np.atleast_1d(np.asarray(g32.solver.normalization(), float)))
+                    if sname_ != "kalman":
+                        for tn_, xq in (("new", jnp.asarray(xt32, f32)), ("absent", None)):
+                            c32 = g32.condition(jnp.asarray(y32, f32), xq).gp
+                            r_[f"cond[{tn_}].loc"] = np.asarray(c32.loc, float)
+                            r_[f"cond[{tn_}].variance"] = np.asarray(c32.variance, float)
+                            r_[f"cond[{tn_}].covariance"] = np.asarray(c32.covariance, float)
+                        r_["variance"] = np.asarray(g32.variance, float)
+                        r_["covariance"] = np.asarray(g32.covariance, float)
+                res32[sname_] = r_
+            except Exception as e:  # noqa: BLE001
+                oracle_bad.append(dict(op=f"float32 model [{sname_}]", kernel=kname_, n=len(x32), observed=f"raised {type(e).__name__}: {str(e)[:80]}", expected="values"))
+        for a_, b_ in (("direct", "quasisep"), ("direct", "kalman")):
+            if a_ in res32 and b_ in res32:
+                for key_ in res32[b_]:
+                    if key_ in res32[a_]:
+                        wa_, gb_ = res32[a_][key_], res32[b_][key_]
+                        if wa_.shape != gb_.shape or float(np.max(np.abs(wa_ - gb_))) > 2e-4 * max(1.0, float(np.max(np.abs(wa_)))):
+                            oracle_bad.append(dict(op=f"solver agreement in float32, {b_} vs {a_}: {key_}", kernel=kname_, n=len(x32), x=x32.tolist(), y=y32.tolist(),
+                                                   expected=wa_.tolist(), observed=gb_.tolist()))
     model = coq_eval("c03", IMPORTS, exprs, defs=DEFS, shard=10)
     for (info, lp, diag, is_k), mv in zip(expect, model):
         n = info["n"]
